@@ -483,7 +483,7 @@ class Real:
                 k = int(op[1])
                 if self.pool[k] is None:
                     return "dead"
-                return self.do_return(k, self.sers[op[2]])
+                return self.do_return(k, self.sers.get(op[2]) or self.sers["j"])
             if kind == "L":
                 return "ids:" + ",".join(sorted(self.tok_of(i) for i in self.dobj.registered()))
         except Exception as x:
